@@ -59,6 +59,16 @@ class Policy:
     return opt
 
 
+def _has_fcall(e):
+  found = []
+
+  def fn(x):
+    if x[0] == 'fcall':
+      found.append(1)
+  ir.walk_expr(e, fn)
+  return bool(found)
+
+
 class Printer:
   def __init__(self, policy=None):
     self.pol = policy or Policy()
@@ -306,8 +316,10 @@ class Printer:
         op = self.pol.pick('assign') if p[2][0] == 'var' else '=='
       self.expr(p[2], 4, False, True); self.sp(); self.t(op); self.sp(); self.expr(p[3], 4, True, True)
     elif k == 'in':
-      if (p[2][0] == 'list' and len(p[2][1]) >= 1 and self.depth == 0 and
+      if (p[2][0] == 'list' and len(p[2][1]) >= 1 and self.depth == 0 and not _has_fcall(p[2]) and
           self.pol.pick('in_list') == 'or'):      # disjunction is not allowed inside aggregation / negation
+        # (a functional call inside a list element is a conjunct of the whole rule in the `in` form but of one
+        # alternative only in the disjunction form: the two spellings are equivalent only for call-free elements)
         self.t('(')
         for i, x in enumerate(p[2][1]):
           if i:
